@@ -438,4 +438,6 @@ _r12_2.__name__ = 'r12_2'
 
 def run(ctx):
     import engine
-    engine.run_rules(ctx, [r13_1, r13_2, r13_3, r13_4, r13_5, dt.r02_6, dt.r03_11, _r18_2, _r12_2])
+    import props.c11 as c11
+    import statecoh
+    engine.run_rules(ctx, [r13_1, r13_2, r13_3, r13_4, r13_5, dt.r02_6, dt.r03_11, _r18_2, _r12_2, c11.r11_2, c11.r11_7, c11.r11_8, statecoh.r10_6])
